@@ -2,6 +2,7 @@
 import re
 import refdec
 import oracle_script
+import refsynth
 
 
 def outcome(s):
@@ -304,6 +305,100 @@ def nontrivial_script(c, a):
     return " ok b=" in a or a.startswith("ok b=")
 
 
+def oracle_c13(c, a, b):
+    w = c.split(" ")
+    if w[0] == "script":
+        return oracle_c13_insert(c, a, b)
+    if w[0] != "synth":
+        return None
+    if a == "not-utf8":
+        return None
+    if outcome(a) not in ("ok", "err"):
+        return "record synthesis did not return normally: %s" % a[:40]
+    text = _hex(w[1])
+    try:
+        want = refsynth.synth(text)
+    except refsynth.Outside as e:
+        if outcome(a) == "ok":
+            return "text outside the grammar (%s) was accepted" % e
+        return None
+    except refsynth.Refused as e:
+        if outcome(a) == "ok":
+            return "record beyond a documented limit (%s) was produced" % e
+        return None
+    if outcome(a) != "ok":
+        return "record text in the grammar was refused (%s)" % a
+    got = _hex(a.split(" ")[1])
+    if got != want:
+        return "synthesised record differs from the RFC 1035 wire form: got %s want %s" % (got.hex()[:80], want.hex()[:80])
+    return None
+
+
+oracle_c08_for_c13 = None
+
+
+def oracle_c13_insert(c, a, b):
+    # inserting a synthesised record into answer/authority/additional of a valid response leaves an accepted packet
+    r = oracle_c08(c, a, b)
+    if r:
+        return r
+    r = oracle_c09(c, a, b)
+    return r
+
+
+def name_labels_of_text(s):
+    body = s[:-1] if s.endswith(b".") else s
+    return body.split(b".") if body else []
+
+
+def oracle_c14(c, a, b):
+    w = c.split(" ")
+    if w[0] != "name2raw":
+        return None
+    if outcome(a) not in ("ok", "err"):
+        return "name conversion did not return normally: %s" % a[:40]
+    s = _hex(w[1])
+    zone = None if w[2] == "." else _hex(w[2])
+    appended = zone is not None and len(s) > 0 and not s.endswith(b".") and s != b"."
+    labels = name_labels_of_text(s) if s != b"." else []
+    ldh = all(1 <= len(l) <= 62 and all((chr(ch).isascii() and chr(ch).isalnum()) or ch in (45, 95) for ch in l) for l in labels)
+    zl = []
+    if appended:
+        try:
+            zl, ze = refdec.dec_name(zone, 0)
+        except refdec.Undecodable:
+            return None
+    wire_len = sum(len(l) + 1 for l in labels + list(zl)) + 1
+    empty_interior = any(len(l) == 0 for l in labels) and s not in (b"", b".")
+    if outcome(a) == "ok":
+        t = a.split(" ")
+        wv = _hex(t[1])
+        try:
+            got, e = refdec.dec_name(wv, 0)
+        except refdec.Undecodable as ex:
+            return "accepted name is not a well-formed wire name: %s" % ex
+        if e != len(wv) or refdec.name_has_ptr(wv, 0):
+            return "accepted name is not a complete pointer-free wire name"
+        if len(wv) > 255 or any(len(l) > 63 for l in got):
+            return "accepted name exceeds 255 bytes or has a label longer than 63"
+        if [bytes(l) for l in got] != [bytes(l) for l in labels + list(zl)]:
+            return "labels of the wire name are not the dot-separated labels of the input (+ zone)"
+        rt = [x for x in t if x.startswith("rt=")]
+        if rt and not rt[0].startswith("rt=err:"):
+            if rt[0] == "rt=panic":
+                return "giving a record the converted name panicked"
+            want = refdec.name_text_exact(labels + list(zl)).hex() or "-"
+            if rt[0][3:] != want:
+                return "a record given that name reads back as %s, expected %s" % (rt[0][3:], want)
+        return None
+    # rejected
+    if ldh and wire_len <= 253 and (not appended or True):
+        if zone is not None and appended and not all(len(l) <= 63 for l in zl):
+            return None
+        return "a letter-digit-hyphen-underscore name within the limits was rejected (%s)" % a
+    return None
+
+
 def nontrivial_accepted(c, a):
     return not a.startswith("noparse")
 
@@ -418,6 +513,20 @@ PROPS = {
         "families": [{"name": "delete-walks", "quick": 0, "thorough": 0, "fixed": True}],
         "oracle": oracle_c11, "nontrivial": lambda c, a: "delete" in c, "shrink": False,
         "rule": "every subset of the records of a section of size 0..5 deleted from within one walk, for the three record sections and the question, pointer-free and compressed, OPT absent/first/last; exhaustive in both tiers",
+        "level": "other", "explanation": "", "assumptions": [],
+    },
+    "C13": {
+        "module": "DnsModel.Theorems.C13", "theorems": [],
+        "families": [{"name": "synth", "quick": 6000, "thorough": 400000}, {"name": "synth-insert", "quick": 1200, "thorough": 40000}],
+        "oracle": oracle_c13, "nontrivial": lambda c, a: a.startswith("ok") or " ok b=" in a, "shrink": False,
+        "rule": "record texts: 60% grammar-derived over the nine types with boundary values (TTL 0/2^32-1/2^32, 62/63-byte labels, 253/254-byte names, TXT 255/256/3825/3826 bytes and escapes, preference 65535/65536, digests of even/odd/zero length, 14 IPv6 forms), 30% single-token damage, 10% arbitrary bytes; plus insertion of the synthesised record into a valid response; non-trivial = distinct texts that synthesise",
+        "level": "other", "explanation": "", "assumptions": ["Ipv6Addr::from_str is std code: modelled for the driver, compared with Python's ipaddress in the oracle"],
+    },
+    "C14": {
+        "module": "DnsModel.Theorems.C14", "theorems": [],
+        "families": [{"name": "name2raw", "quick": 4, "thorough": 6, "fixed": True}],
+        "oracle": oracle_c14, "nontrivial": lambda c, a: a.startswith("ok"), "shrink": False,
+        "rule": "all strings over {a,B,0,-,_,.,0x80} up to length 4 (quick) / 6 (thorough), each with and without a default zone, plus label lengths 60..65 and text lengths 245..258, forbidden bytes; each accepted name is also given to a record and read back",
         "level": "other", "explanation": "", "assumptions": [],
     },
     "C12": {
